@@ -215,8 +215,11 @@ def stepPath (s : DState) (op _obs : String) : DState × String :=
       | .ok q =>
         let fl : XFlags := { secureSymlinks := sec == "1", unlink := unl == "1" }
         let (r, pr) := (checkSymlinks fl (ln == "1") q).run s.pr
+        -- the literal string-index transcription must agree
+        let (r', pr') := (checkSymlinksIdx fl (ln == "1") q).run s.pr
+        let agree := r' == r && snapshot pr'.fs == snapshot pr.fs
         let env := if pr.cwd ≠ s.pr.cwd then "cwd" else "ok"
-        ({ s with pr := pr }, s!"{r.str} env={env} {snapshot pr.fs}")
+        ({ s with pr := pr }, (if agree then "" else "MODELS-DISAGREE ") ++ s!"{r.str} env={env} {snapshot pr.fs}")
       | _ => (s, "rejected")
     | none => (s, "bad-op")
   | _ => (s, "bad-op")
